@@ -846,7 +846,11 @@ def link_recursion(R, ro, rule):
                 if len(params) > 1:
                     # depth parameter compared against a module constant before the recursive call, which passes it on increased
                     ind = params[1]
-                    limited = any(isinstance(t, ast.If) and ind in q.names_loaded(t.test) and any(isinstance(x, ast.Return) for x in t.body) for t in m.node.body) \
+                    # (every path to the recursive call passes a test of the depth parameter; the exact shape is C20.DUMP-BOUNDED's business)
+                    mcfg = cfg_of(m)
+                    call_nodes = [x for x in mcfg.nodes if any(c is y for y in kit.node_calls(x))]
+                    depth_tests = [x for x in mcfg.nodes if x.kind == "test" and ind in q.names_loaded(x.ast)]
+                    limited = bool(depth_tests) and bool(call_nodes) and mcfg.find_path([mcfg.entry], call_nodes, N, cut_nodes=depth_tests) is None \
                         and any(ind in q.names_loaded(a) for a in c.args)
                 R.check(limited, rule, "%s:%s" % (m.qualname, q.src(c)[:40]), R.site(m, c),
                         "the walk over linked objects in %s is depth-limited" % m.name,
